@@ -34,6 +34,11 @@ var exports = map[string]string{
 	"export_layers.go":      "layers",
 }
 
+// accessor files that need the shim's types: only in the sched overlay
+var schedExports = map[string]string{
+	"export_sched_gopacket.go": "",
+}
+
 var schedFiles = []string{"packet.go", "reassembly/memory.go", "reassembly/tcpassembly.go", "tcpassembly/assembly.go"}
 
 const shimPath = "github.com/gopacket/gopacket/zzverif/vsync"
@@ -51,6 +56,12 @@ func main() {
 	sched := map[string]string{}
 	for k, v := range plain {
 		sched[k] = v
+	}
+	for f, pkg := range schedExports {
+		src := filepath.Join(root, "overlay", f)
+		if _, err := os.Stat(src); err == nil {
+			sched[filepath.Join(repo, pkg, "zz_verif_"+f)] = src
+		}
 	}
 	vs, _ := filepath.Glob(filepath.Join(root, "overlay", "vsync", "*.go"))
 	for _, f := range vs {
